@@ -140,7 +140,7 @@ Theorem C11_no_stuck_refuted :
 Proof. exact no_stuck_refuted. Qed.
 Print Assumptions C11_no_stuck_refuted.
 
-(* Join (model PromiseJoin.v; theorems over all interleavings are for the single-promise model): the seeded
+(* Join (model PromiseJoin.v; the theorems over all interleavings on this model follow below): the seeded
    change C11-3 (resolve no longer closes p.joined) and the code as found (F11c, nil client table) are refuted by
    concrete histories, replayed on the real code (corpus/C11-promise.txt) *)
 Theorem C11_join_resolve_refuted :
@@ -162,11 +162,15 @@ Theorem C11_join_nil_table_refuted :
 Proof. exact join_nil_table_refuted. Qed.
 Print Assumptions C11_join_nil_table_refuted.
 
-(* exactly-once on a promise and its joined chain (model with Join), all variants, any number of promises,
-   every op list and interleaving: count part (at most once always, exactly once when returned).
-   PARTIAL for chains: the destination part and no_stuck are proved for the single-promise model only. *)
-Theorem C11_join_pipelined_exactly_once_partial : forall v np ops c, jreach v np ops c ->
-  forall t th, nth_error (jthreads c) t = Some th ->
+(* pipelined_exactly_once on a promise and its joined chain (model with Join), all variants, any number of promises,
+   every op list and interleaving:
+   (count) a call is delivered at most once, and exactly once when it has returned (a Client-call on an empty slot: zero);
+   (caller) a call is handed to the PipelineCaller of the promise at the end of its traversal only while that promise
+            has not left the unresolved state;
+   (destination) every other delivery was made on the result of the promise at the end of the call's traversal, at
+            the call's path, and that result is final. *)
+Theorem C11_join_pipelined_exactly_once : forall v np ops c, jreach v np ops c ->
+  (forall t th, nth_error (jthreads c) t = Some th ->
     match j_op th with
     | JSend _ _ _ =>
       (jcnt (jis_deliver t) (jevents c) <= 1)%nat /\
@@ -176,9 +180,17 @@ Theorem C11_join_pipelined_exactly_once_partial : forall v np ops c, jreach v np
       (j_pc th = QDone -> (j_out th = ONoSlot /\ jcnt (jis_deliver t) (jevents c) = 0%nat) \/
                           (j_out th = ORet /\ jcnt (jis_deliver t) (jevents c) = 1%nat))
     | _ => True
-    end.
-Proof. exact join_pipelined_exactly_once. Qed.
-Print Assumptions C11_join_pipelined_exactly_once_partial.
+    end) /\
+  wf_jcaller (jevents c) /\
+  (forall t th k d, nth_error (jthreads c) t = Some th -> In (JEDeliver t k d) (jevents c) ->
+    d = DCaller \/
+    (d = res_dest (jcur_res (getp c k)) (j_path th) /\ p_caller (getp c k) = false /\
+     (p_result (getp c k) <> None \/ p_signals (getp c k) = []))).
+Proof.
+  intros v np ops c H. split; [exact (join_pipelined_exactly_once v np ops c H)|].
+  split; [exact (join_caller_before_resolution v np ops c H)|exact (join_delivery_destination v np ops c H)].
+Qed.
+Print Assumptions C11_join_pipelined_exactly_once.
 
 (* ---- joined chains (model PromiseJoin.v): all variants / all numbers of promises / all op lists / all
    interleavings *)
@@ -202,12 +214,6 @@ Theorem C11_join_resolve_once : forall v np ops c, jreach v np ops c -> forall k
 Proof. exact join_resolve_once. Qed.
 Print Assumptions C11_join_resolve_once.
 
-(* destination on chains, first half: a call is handed to the PipelineCaller of the promise at the end of the
-   traversal only while that promise has not left the unresolved state.  PARTIAL: that the other deliveries go
-   to what the leaf's result holds is proved for the single-promise model only. *)
-Theorem C11_join_caller_before_resolution_partial : forall v np ops c, jreach v np ops c -> wf_jcaller (jevents c).
-Proof. exact join_caller_before_resolution. Qed.
-Print Assumptions C11_join_caller_before_resolution_partial.
 
 (* seeded C11-r2-1 (Join: parent.clientsRefs++ instead of += p.clientsRefs) refuted on the Join model: after
    ReleaseClients on the two joined promises of a child-first chain the client is already released *)
@@ -254,23 +260,13 @@ Theorem C11_cyclic_join_refuted :
 Proof. exact cyclic_join_refuted. Qed.
 Print Assumptions C11_cyclic_join_refuted.
 
-(* no_stuck on chains, PARTIAL (the mutexes): under the precondition, whenever some Promise.mu is held some thread can
-   take a step, so no operation waits forever for a mutex.  Not covered: the channel waits (callsStopped, pendingDone,
-   joined, resolved, hook.done) on chains; they are covered for a single promise by C11_no_stuck. *)
-Theorem C11_join_no_mutex_deadlock_partial : forall v np ops c, jv_alloc_table v = true -> join_ordered ops ->
+(* no deadlock on the mutexes (component of C11_join_no_stuck): under the precondition of Join, whenever some
+   Promise.mu is held some thread can take a step, so no operation waits forever for a mutex *)
+Theorem C11_join_no_mutex_deadlock : forall v np ops c, jv_alloc_table v = true -> join_ordered ops ->
   jreach v np ops c -> forall k t, p_mu (getp c k) = Some t -> exists t', jenabled v c t' = true.
 Proof. exact join_no_mutex_deadlock. Qed.
-Print Assumptions C11_join_no_mutex_deadlock_partial.
+Print Assumptions C11_join_no_mutex_deadlock.
 
-(* destination on chains, second half: a delivery that is not to a PipelineCaller was made on the result of the
-   promise at the end of the call's traversal, at the call's path, and that promise's result is final *)
-Theorem C11_join_delivery_destination : forall v np ops c, jreach v np ops c ->
-  forall t th k d, nth_error (jthreads c) t = Some th -> In (JEDeliver t k d) (jevents c) ->
-    d = DCaller \/
-    (d = res_dest (jcur_res (getp c k)) (j_path th) /\ p_caller (getp c k) = false /\
-     (p_result (getp c k) <> None \/ p_signals (getp c k) = [])).
-Proof. exact join_delivery_destination. Qed.
-Print Assumptions C11_join_delivery_destination.
 
 (* joined promises hold nothing: references, clients and signals live at the promise they were joined onto *)
 Theorem C11_join_joined_empty : forall v np ops c, jv_alloc_table v = true -> jreach v np ops c -> forall k,
